@@ -3090,6 +3090,8 @@ The what argument tells us what sort of state is expected (allowed values are de
         if not prodtbl:
             return dependentProducts
 
+        skipBelow = None                # depth of an optional product that isn't setup; the products that
+                                        # only it requires needn't be setup either
         for product, optional, recursionDepth in prodtbl.dependencies(self, recursive=True, recursionDepth=1,
                                                                       followExact=followExact,
                                                                       productDictionary=productDictionary,
@@ -3099,9 +3101,15 @@ The what argument tells us what sort of state is expected (allowed values are de
                 continue
 
             if setup:           # get the version that's actually setup
+                if skipBelow is not None and recursionDepth <= skipBelow:
+                    skipBelow = None    # we've left the dependencies of that optional product
+
                 setupProduct = self.findSetupProduct(product.name)
                 if not setupProduct:
-                    if not optional:
+                    if optional:
+                        if skipBelow is None:
+                            skipBelow = recursionDepth
+                    elif skipBelow is None:
                         msg = "Product %s is a dependency for %s %s, but is not setup" % \
                               (product.name, topProduct.name, topProduct.version)
 
